@@ -1,8 +1,8 @@
 import GoFlags.Props.C20
-open GoFlags.C20
-#print axioms lev_is_levenshtein
-#print axioms lev_symm
-#print axioms lev_eq_zero_iff
-#print axioms lev_le_max
-#print axioms closest_is_minimum
-#print axioms closest_nil
+#print axioms GoFlags.C20.lev_is_levenshtein
+#print axioms GoFlags.C20.lev_symm
+#print axioms GoFlags.C20.lev_eq_zero_iff
+#print axioms GoFlags.C20.lev_le_max
+#print axioms GoFlags.C20.closestLoop_spec
+#print axioms GoFlags.C20.closest_is_minimum
+#print axioms GoFlags.C20.closest_nil
